@@ -91,87 +91,93 @@ func runC21(c *Ctx) {
 			}
 		}
 	}
-	// (2) ready signal exactly once on success returns
+	// (2) ready signal exactly once on success returns (helper-aware)
+	isReadySelect := func(in ssa.Instruction) bool {
+		sel, ok := in.(*ssa.Select)
+		if !ok {
+			return false
+		}
+		for _, st := range sel.States {
+			if st.Dir == 1 /* types.SendOnly */ && strings.HasSuffix(desc(st.Chan), ".readyForNextBlockChan") {
+				return true
+			}
+		}
+		return false
+	}
+	isFirstSend := func(in ssa.Instruction) bool {
+		s, ok := in.(*ssa.Send)
+		return ok && strings.Contains(typeStr(s.Chan.Type()), "clientPointResult")
+	}
+	signalSpec := PassSpec{
+		Instr: func(in ssa.Instruction) bool { return isReadySelect(in) || isFirstSend(in) },
+		Edge:  func(f string) bool { return strings.HasSuffix(f, ".readyForNextBlockChan == nil") },
+	}
+	// a call is a signal if the callee (same package, depth 2) contains a ready select
+	callSignals := func(fn *ssa.Function, in ssa.Instruction) bool {
+		ci, ok := in.(*ssa.Call)
+		if !ok {
+			return false
+		}
+		h := samePkgHelper(fn, &ci.Call)
+		if h == nil {
+			return false
+		}
+		for _, g := range closureFuncs(h, 1) {
+			for _, hin := range fnInstrs(g) {
+				if isReadySelect(hin) {
+					return true
+				}
+			}
+		}
+		return false
+	}
 	for _, fn := range []*ssa.Function{hf, hb} {
-		isReadySel := func(b *ssa.BasicBlock) bool {
-			sel := selectOfIf(b)
-			if sel == nil {
-				return false
-			}
-			for _, st := range sel.States {
-				if st.Dir == 1 /* types.SendOnly */ && strings.HasSuffix(desc(st.Chan), ".readyForNextBlockChan") {
-					return true
-				}
-			}
-			return false
-		}
-		hasFirstSend := func(b *ssa.BasicBlock) bool {
-			for _, in := range b.Instrs {
-				if s, ok := in.(*ssa.Send); ok && strings.Contains(typeStr(s.Chan.Type()), "clientPointResult") {
-					return true
-				}
-			}
-			return false
-		}
-		facts := edgeFacts(fn)
-		nilEdge := map[*ssa.BasicBlock]int{}
-		for _, f := range facts {
-			if strings.HasSuffix(f.Fact, ".readyForNextBlockChan == nil") {
-				nilEdge[f.From] = f.Succ + 1
-			}
-		}
-		cut := func(from *ssa.BasicBlock, succ int) bool {
-			if isReadySel(from) && succ == 0 {
-				return true
-			}
-			if hasFirstSend(from) {
-				return true
-			}
-			if nilEdge[from] == succ+1 {
-				return true
-			}
-			return false
-		}
-		reach, parent := reachAvoiding(fn, cut)
 		idx := errorResultIndex(fn)
-		n := 0
+		var rets []ssa.Instruction
 		for _, b := range fn.Blocks {
 			r, ok := b.Instrs[len(b.Instrs)-1].(*ssa.Return)
 			if !ok || idx < 0 || !isNilConst(returnedValue(r, idx)) {
 				continue
 			}
-			n++
-			key := ssaFuncKey(fn) + ":return@" + c.returnKey(fn, b)
-			bad := reach[b] && !hasFirstSend(b)
-			w := ""
-			if bad {
-				w = c.witness(fn, parent, b)
-			}
-			c.Check(!bad, "ready-signal-on-success", key, r.Pos(), "every path to this success return signals readiness (or answers the first-block waiter)", "a path reaches this success return without signalling readiness for the next message: the sync stalls after this message ("+w+")")
+			rets = append(rets, r)
 		}
-		if n == 0 {
+		if len(rets) == 0 {
 			c.Undecided("no success return in %s", ssaFuncKey(fn))
+			continue
 		}
-		// at most once: from the target of a ready-send edge no other ready select is reachable
-		nSel := 0
-		for _, b := range fn.Blocks {
-			if !isReadySel(b) {
-				continue
+		for i, v := range c.mustPassEv(fn, rets, signalSpec) {
+			r := rets[i]
+			key := ssaFuncKey(fn) + ":return@" + c.returnKey(fn, r.Block())
+			c.Check(v.OK, "ready-signal-on-success", key, r.Pos(), "every path to this success return signals readiness (or answers the first-block waiter)", "a path reaches this success return without signalling readiness for the next message: the sync stalls after this message ("+v.Witness+")")
+		}
+		// at most once: after a signal no second signal is reachable
+		var sigs []ssa.Instruction
+		for _, in := range fnInstrs(fn) {
+			if isReadySelect(in) || callSignals(fn, in) {
+				sigs = append(sigs, in)
 			}
-			sel := selectOfIf(b)
-			// only the first test block of each select (state 0)
-			if !isFirstStateTest(b) {
-				continue
-			}
-			after := reachFromAvoiding([]*ssa.BasicBlock{b}, func(from *ssa.BasicBlock, s int) bool { return false })
+		}
+		for n, sgn := range sigs {
 			twice := false
-			for _, o := range fn.Blocks {
-				if o != b && isReadySel(o) && selectOfIf(o) != sel && after[o] {
+			after := reachFromAvoiding([]*ssa.BasicBlock{sgn.Block()}, nil)
+			for _, o := range sigs {
+				if o == sgn {
+					continue
+				}
+				if o.Block() == sgn.Block() {
+					if precedes(sgn, o) {
+						twice = true
+					}
+					continue
+				}
+				if after[o.Block()] {
 					twice = true
 				}
 			}
-			nSel++
-			c.Check(!twice, "ready-signal-at-most-once", fmt.Sprintf("%s:ready-select#%d", ssaFuncKey(fn), nSel), sel.Pos(), "no second readiness signal is reachable after this one", "a second readiness signal is reachable after this one: two requests would be issued for one message")
+			c.Check(!twice, "ready-signal-at-most-once", fmt.Sprintf("%s:ready-signal#%d", ssaFuncKey(fn), n+1), sgn.Pos(), "no second readiness signal is reachable after this one", "a second readiness signal is reachable after this one: two requests would be issued for one message")
+		}
+		if len(sigs) == 0 {
+			c.Bad("ready-signal-on-success", ssaFuncKey(fn)+":no-signal", fn.Pos(), "the handler never signals readiness")
 		}
 	}
 	c.Floor("ready-signal-on-success", 4)
@@ -247,8 +253,19 @@ func runC21(c *Ctx) {
 			}
 			nSend++
 			key := ssaFuncKey(fn)
-			c.Check(allowed[ssaFuncKey(fn)], "request-next-senders", key, ci.Pos(), "RequestNext is built in one of the three functions that account for it", "RequestNext is sent from "+key+", outside the functions that maintain the outstanding-request counter")
-			held := heldAt(fn, ci.(ssa.Instruction), ".busyMutex", []string{"Lock", "TryLock"}, []string{"Unlock"})
+			okWho := allowed[ssaFuncKey(fn)]
+			if !okWho && fn.Object() != nil && !fn.Object().Exported() {
+				// an unexported helper is fine when every caller is one of the accounting functions
+				sites := callersInPkg(fn)
+				okWho = len(sites) > 0
+				for _, site := range sites {
+					if !allowed[ssaFuncKey(site.Parent())] {
+						okWho = false
+					}
+				}
+			}
+			c.Check(okWho, "request-next-senders", key, ci.Pos(), "RequestNext is built in one of the three functions that account for it (or a private helper only they call)", "RequestNext is sent from "+key+", outside the functions that maintain the outstanding-request counter")
+			held := heldAtIP(fn, ci.(ssa.Instruction), ".busyMutex", []string{"Lock", "TryLock"}, []string{"Unlock"}, 2)
 			c.Check(held, "request-next-senders", key+":busy-lock@"+c.returnKey(fn, ci.Block()), ci.Pos(), "sent with the busy lock held", "RequestNext is sent without the busy lock: it can interleave with syncLoop's accounting")
 		}
 	}
@@ -290,22 +307,22 @@ func runC21(c *Ctx) {
 		}
 		c.Check(closes == 1, "stop-sends-done", ssaFuncKey(stop)+":close-ready", stop.Pos(), "Stop closes the ready channel, ending syncLoop", "Stop does not close the ready channel exactly once: syncLoop is not told to end")
 	}
-	// handlers send on the ready channel under the lifecycle lock as well
-	for _, fn := range []*ssa.Function{hf, hb} {
-		nSel := 0
-		for _, b := range fn.Blocks {
-			for _, in := range b.Instrs {
+	// readiness is signalled under the lifecycle lock, wherever the select lives
+	seenSel := map[*ssa.Select]bool{}
+	nSel := 0
+	for _, root := range []*ssa.Function{hf, hb} {
+		for _, fn := range closureFuncs(root, 2) {
+			for _, in := range fnInstrs(fn) {
 				sel, ok := in.(*ssa.Select)
-				if !ok {
+				if !ok || seenSel[sel] || !isReadySelect(sel) {
 					continue
 				}
-				for _, st := range sel.States {
-					if st.Dir == 1 && strings.HasSuffix(desc(st.Chan), ".readyForNextBlockChan") {
-						held := heldAt(fn, sel, ".lifecycleMutex", []string{"Lock"}, []string{"Unlock"})
-						nSel++
-						c.Check(held, "ready-send-locked", fmt.Sprintf("%s:ready-select#%d", ssaFuncKey(fn), nSel), sel.Pos(), "readiness is signalled under the lifecycle lock, after a nil check", "readiness is signalled without the lifecycle lock: Stop can close the channel concurrently")
-					}
-				}
+				seenSel[sel] = true
+				nSel++
+				held := heldAt(fn, sel, ".lifecycleMutex", []string{"Lock"}, []string{"Unlock"})
+				c.Check(held, "ready-send-locked", fmt.Sprintf("%s:ready-select#%d", ssaFuncKey(fn), nSel), sel.Pos(), "readiness is signalled under the lifecycle lock, after a nil check", "readiness is signalled without the lifecycle lock: Stop can close the channel concurrently")
+				v := c.mustPass(fn, []ssa.Instruction{sel}, func(f string) bool { return strings.HasSuffix(f, ".readyForNextBlockChan != nil") })
+				c.Check(v[0].OK, "ready-send-locked", fmt.Sprintf("%s:ready-select#%d:nil-check", ssaFuncKey(fn), nSel), sel.Pos(), "the channel is checked for nil before sending", "readiness is sent without checking that the channel still exists (Stop sets it to nil)")
 			}
 		}
 	}
@@ -360,34 +377,68 @@ func (c *Ctx) returnKey(fn *ssa.Function, b *ssa.BasicBlock) string {
 
 func (c *Ctx) checkSyncLoopWindow(sl *ssa.Function) {
 	key := ssaFuncKey(sl)
-	var sends []ssa.CallInstruction
-	for _, ci := range allCalls(sl) {
-		if strings.HasSuffix(calleeName(ci.Common()), ".SendMessage") && len(ci.Common().Args) > 1 && strings.HasSuffix(desc(ci.Common().Args[1]), "NewMsgRequestNext()") {
-			sends = append(sends, ci)
+	// loop bound of a RequestNext send loop inside fn (the value the loop index is compared with)
+	sendLoopBound := func(fn *ssa.Function) (ssa.CallInstruction, ssa.Value) {
+		var send ssa.CallInstruction
+		n := 0
+		for _, ci := range allCalls(fn) {
+			if strings.HasSuffix(calleeName(ci.Common()), ".SendMessage") && len(ci.Common().Args) > 1 && strings.HasSuffix(desc(ci.Common().Args[1]), "NewMsgRequestNext()") {
+				send = ci
+				n++
+			}
+		}
+		if n != 1 {
+			return nil, nil
+		}
+		var bound ssa.Value
+		for _, f := range edgeFacts(fn) {
+			iff := f.From.Instrs[len(f.From.Instrs)-1].(*ssa.If)
+			bo, ok := iff.Cond.(*ssa.BinOp)
+			if !ok || f.Succ != 0 {
+				continue
+			}
+			if _, isInc := bo.X.(*ssa.BinOp); isInc && bo.Op.String() == "<" && reachesBlock(send.Block(), f.From) {
+				bound = bo.Y
+			}
+		}
+		return send, bound
+	}
+	var burst ssa.Instruction // the instruction in syncLoop that performs the burst
+	var bound ssa.Value      // the burst size, as a value of syncLoop
+	if send, bnd := sendLoopBound(sl); send != nil {
+		burst, bound = send.(ssa.Instruction), bnd
+	} else {
+		n := 0
+		for _, ci := range allCalls(sl) {
+			h := samePkgHelper(sl, ci.Common())
+			if h == nil {
+				continue
+			}
+			hsend, hb := sendLoopBound(h)
+			if hsend == nil {
+				continue
+			}
+			n++
+			// the helper's loop bound must be one of its parameters: the burst size is the matching argument
+			for i, p := range h.Params {
+				if hb == ssa.Value(p) && i < len(ci.Common().Args) {
+					burst, bound = ci.(ssa.Instruction), ci.Common().Args[i]
+				}
+			}
+		}
+		if n != 1 {
+			burst = nil
 		}
 	}
-	if len(sends) != 1 {
-		c.Bad("pipeline-window", key+":burst", sl.Pos(), "syncLoop has %d RequestNext send sites, expected one burst loop", len(sends))
+	if burst == nil {
+		c.Undecided("%s: the RequestNext burst (a send loop here or in a helper sized by an argument) was not recognised", key)
 		return
 	}
-	send := sends[0]
 	// burst only when counter <= 0
-	v := c.mustPass(sl, []ssa.Instruction{send.(ssa.Instruction)}, func(f string) bool {
+	v := c.mustPass(sl, []ssa.Instruction{burst}, func(f string) bool {
 		return strings.HasSuffix(f, ".syncPipelinedRequestNext <= 0") || strings.HasSuffix(f, ".syncPipelinedRequestNext == 0")
 	})
-	c.Check(v[0].OK, "pipeline-window", key+":burst-when-empty", send.Pos(), "a new burst is sent only when the outstanding counter is not positive", "a new burst of RequestNext can be sent while earlier pipelined requests are still outstanding ("+v[0].Witness+")")
-	// the loop bound, and the stored counter
-	var bound ssa.Value
-	for _, f := range edgeFacts(sl) {
-		iff := f.From.Instrs[len(f.From.Instrs)-1].(*ssa.If)
-		bo, ok := iff.Cond.(*ssa.BinOp)
-		if !ok || f.Succ != 0 {
-			continue
-		}
-		if _, isPhi := bo.X.(*ssa.BinOp); isPhi && bo.Op.String() == "<" && reachesBlock(send.Block(), f.From) {
-			bound = bo.Y
-		}
-	}
+	c.Check(v[0].OK, "pipeline-window", key+":burst-when-empty", burst.Pos(), "a new burst is sent only when the outstanding counter is not positive", "a new burst of RequestNext can be sent while earlier pipelined requests are still outstanding ("+v[0].Witness+")")
 	okBound := false
 	if call, ok := bound.(*ssa.Call); ok {
 		if b, ok := call.Call.Value.(*ssa.Builtin); ok && b.Name() == "max" && len(call.Call.Args) == 2 {
@@ -399,7 +450,8 @@ func (c *Ctx) checkSyncLoopWindow(sl *ssa.Function) {
 	if bound != nil {
 		bd = desc(bound)
 	}
-	c.Check(okBound, "pipeline-window", key+":burst-size", send.Pos(), "the burst is max(PipelineLimit,1) requests", "the burst size is "+shortArg(bd)+", not max(PipelineLimit,1)")
+	c.Check(okBound, "pipeline-window", key+":burst-size", burst.Pos(), "the burst is max(PipelineLimit,1) requests", "the burst size is "+shortArg(bd)+", not max(PipelineLimit,1)")
+	send := burst
 	// stores to the counter
 	nDec, nSet := 0, 0
 	for _, in := range fnInstrs(sl) {
